@@ -4,17 +4,23 @@
    environment variable names, entry points of the backend classes, decision sites / forwarding
    calls / native-operator emission points of graph.py), and quantifies over ALL environments
    (functions string -> option string), ALL availability predicates, ALL configurations,
-   ALL per-call arguments. *)
+   ALL per-call arguments.  In [emits T fn cfg arg acyclic explicit dd]: [arg] is the explicit
+   use_graph_primitive argument (None = omitted), [explicit] = a graph is passed (else inferred from
+   a 2-D array / grid frame), [dd] = the data-dependent conditions guarding some calls hold. *)
 From Coq Require Import String List Bool.
 From Cspuz Require Import Lib.PyErr Backend.Config Backend.ConfigProofs Backend.ConfigGenProofs Gen.ConfigTables.
 Import ListNotations.
 Local Open Scope string_scope.
 Local Open Scope res_scope.
 
-(* T tie: the generated tables are exactly the prescribed ones *)
-Theorem generated_tables_as_prescribed : tables = expected_tables.
-Proof. exact tables_eq. Qed.
-Print Assumptions generated_tables_as_prescribed.
+(* T tie, configuration / dispatch part: the generated name chain, detection order, default-on
+   tuples, spellings, variable names and entry points are exactly the prescribed ones ([with_graph]
+   is the prescribed record with the four graph.py fields left open; the graph part is not compared
+   with a fixed table: the decision-table theorems below are proved about whatever was generated) *)
+Theorem generated_config_tables_as_prescribed :
+  tables = with_graph (t_sites tables) (t_calls tables) (t_emits tables) (t_raises tables).
+Proof. exact tables_cfg_eq. Qed.
+Print Assumptions generated_config_tables_as_prescribed.
 
 (* 'auto': the first importable of cspuz_core, enigma_csp, csugar (module pycsugar), z3, else sugar *)
 Theorem detect_order : forall avail : string -> bool,
@@ -154,36 +160,40 @@ Print Assumptions auto_detected_backend_is_importable.
 
 (* graph helpers: the native operator is posted exactly when the explicit argument, or else the
    configuration flag, says so ([want arg flag] = match arg with Some b => b | None => flag end) *)
-Theorem primitive_decision_table : forall (cfg : config) (arg : option bool) (acyclic explicit : bool),
+Theorem primitive_decision_table : forall (cfg : config) (arg : option bool) (acyclic explicit dd : bool),
   let p := use_graph_primitive cfg in
   let d := use_graph_division_primitive cfg in
-  emits tables "active_vertices_connected" cfg arg acyclic explicit
+  emits tables "active_vertices_connected" cfg arg acyclic explicit dd
     = Ok (if want arg p && negb acyclic then [OpAVC] else []) /\
-  emits tables "active_edges_single_cycle" cfg arg acyclic explicit
+  emits tables "active_edges_single_cycle" cfg arg acyclic explicit dd
     = Ok (if want arg p then [OpAVC] else []) /\
-  emits tables "active_edges_single_path" cfg arg acyclic explicit
+  emits tables "active_edges_single_path" cfg arg acyclic explicit dd
     = (if want arg p then Ok [OpAVC] else Err OtherError) /\
-  emits tables "active_edges_connected_crossable" cfg arg acyclic explicit
+  emits tables "active_edges_connected_crossable" cfg arg acyclic explicit dd
     = Ok (if want arg p then [OpAVC] else []) /\
-  emits tables "active_edges_single_cycle_crossable" cfg arg acyclic explicit
+  emits tables "active_edges_single_cycle_crossable" cfg arg acyclic explicit dd
     = Ok (if want arg p then [OpAVC] else []) /\
-  emits tables "division_connected_variable_groups_with_borders" cfg arg acyclic explicit
+  emits tables "division_connected_variable_groups_with_borders" cfg arg acyclic explicit dd
     = Ok (if want arg d then [OpDIV] else []) /\
-  emits tables "division_connected" cfg None acyclic explicit
+  emits tables "division_connected" cfg None acyclic explicit dd
     = Ok (if p then [OpAVC] else []) /\
-  emits tables "active_vertices_not_adjacent_and_not_segmenting" cfg None acyclic true
+  emits tables "active_vertices_not_adjacent_and_not_segmenting" cfg None acyclic true dd
     = Ok (if p then [OpAVC] else []) /\
-  emits tables "active_vertices_not_adjacent_and_not_segmenting" cfg None acyclic false = Ok [] /\
-  emits tables "division_connected_variable_groups" cfg arg acyclic explicit = Ok [] /\
-  emits tables "active_edges_acyclic" cfg arg acyclic explicit = Ok [] /\
-  emits tables "active_vertices_not_adjacent" cfg arg acyclic explicit = Ok [].
+  (* ... on a 2-D array: single-row / single-column boards go through active_vertices_connected
+     ([dd] = true), larger boards use the diagonal-chain encoding, which has no decision *)
+  emits tables "active_vertices_not_adjacent_and_not_segmenting" cfg None acyclic false true
+    = Ok (if p then [OpAVC] else []) /\
+  emits tables "active_vertices_not_adjacent_and_not_segmenting" cfg None acyclic false false = Ok [] /\
+  emits tables "division_connected_variable_groups" cfg arg acyclic explicit dd = Ok [] /\
+  emits tables "active_edges_acyclic" cfg arg acyclic explicit dd = Ok [] /\
+  emits tables "active_vertices_not_adjacent" cfg arg acyclic explicit dd = Ok [].
 Proof. exact primitive_decision_G. Qed.
 Print Assumptions primitive_decision_table.
 
 (* never for acyclic connectivity, whatever the argument and the configuration say *)
-Theorem acyclic_never_primitive : forall (cfg : config) (arg : option bool) (explicit : bool),
-  emits tables "active_vertices_connected" cfg arg true explicit = Ok [] /\
-  emits tables "_active_vertices_connected" cfg arg true explicit = Ok [] /\
+Theorem acyclic_never_primitive : forall (cfg : config) (arg : option bool) (explicit dd : bool),
+  emits tables "active_vertices_connected" cfg arg true explicit dd = Ok [] /\
+  emits tables "_active_vertices_connected" cfg arg true explicit dd = Ok [] /\
   resolve_primitive tables "_active_vertices_connected" cfg arg true = Some false /\
   (forall c, In c (t_calls tables) -> c_acy c = AcyPass \/ c_acy c = AcyConst false).
 Proof. exact acyclic_never_primitive_G. Qed.
